@@ -98,7 +98,8 @@ def build_alphabet(lab, ents, root_of):
     star = "/".join(segs[:4] + ["*"] * (len(segs) - 4))
     multi = "/".join(segs[:-1] + ["*"])          # same string, several file types
     searches = [star, multi, "/".join(segs[:3]) + "/**", "/".join(segs[:2]) + "/*", "/".join(segs[:-1]) + "/" + (sorted(model.alias)[0] if model.alias else "*"),
-                "/".join(segs[:5] + [">"] + segs[6:])]
+                "/".join(segs[:5] + [">"] + segs[6:]),
+                "/".join(segs[:2] + ["*", ">"] + ["*"] * (len(segs) - 4))]      # '>' followed by '*': several candidates tie on the '>' value
     untyped = ["bla/bla", "", segs[0] + "/zz", "a:b:c"]
     t1 = model.natural(f1).name
     uris = [t1 + ":" + f1] + [t.name + ":" + multi for t in model.all_types(multi)]
@@ -152,7 +153,7 @@ def build_alphabet(lab, ents, root_of):
     finders = ["list"] + ["paths:" + c for c in lab.configs] + ["all"]
     for fd in finders:
         fs = fd != "list"
-        for i, s in enumerate([searches[0], searches[2], searches[5], f1]):
+        for i, s in enumerate([searches[0], searches[2], searches[5], f1, searches[6]]):
             add("find:%s:%d" % (fd, i), {"f": "find", "finder": fd, "search": s, "as_set": fs}, fs=fs)
             add("find_str:%s:%d" % (fd, i), {"f": "find", "finder": fd, "search": s, "kw": {"as_sid": False}, "as_set": fs}, fs=fs)
             add("find_one:%s:%d" % (fd, i), {"f": "find", "finder": fd, "search": s, "mode": "one", "as_set": fs}, fs=fs)
@@ -210,7 +211,7 @@ def worker(args):
     from lib import universe
     rec = Rec("C13")
     lab = Lab(4242)                      # deterministic universe: identical in every worker / hash seed
-    ents = universe.gen_universe(random.Random(4242), lab.model, lab.vocab, n_leaves=14, names=["ophelia", "yorick"])
+    ents = universe.gen_universe(random.Random(4242), lab.model, lab.vocab, n_leaves=36, names=["ophelia", "yorick"])
     lab.new_universe(ents=ents, names=["ophelia", "yorick"])
     root = lab.trees.pms[lab.default_config].root
     testing = os.path.dirname(os.path.dirname(root.rstrip("/")))     # .../SPIL_PROJECTS
